@@ -200,6 +200,10 @@ def gen_run_scenario(rng, tier, nfiles=1, seq=0.3, constraint=0.3, empty=0.15,
             content = assemble(rng, gen_lines(rng, lines if lines is not None
                                                else n_lines(rng, tier), seqish=True, longs=0.05))
         files.append({'name': f'f{k}.log', 'content': content.hex()})
+    if nfiles >= 2 and rng.random() < 0.15:
+        # files of the SAME NAME in different directories (one log per service / host)
+        for k, f in enumerate(files):
+            f['name'] = f'd{k}/app.log'
     defs = []
     for _ in range(rng.choice([1, 2, 3, 4])):
         defs.append(gen_seq_def(rng) if rng.random() < seq else gen_simple_def(rng))
